@@ -75,6 +75,23 @@ fn respell(r: &mut Rng, e: &Exp) -> Exp {
 fn respell_case(r: &mut Rng) -> Option<Case> {
     let cfg = ModelCfg { max_vars: 3, depth: 2, logic: false, piecewise: true, unbounded: true, fractional: false, strict_cmp: false, hostile: false };
     let (m, ds) = gen_model::model(r, &cfg);
+    // make sure a scaled piecewise term is present: the direction a min/max/abs is relaxed in depends on the
+    // SIGN of the coefficient, which is where spellings (`k * e`, `e * k`, `e / (1/k)`) can come apart
+    let m = {
+        let affine = ModelCfg { max_vars: 3, depth: 1, logic: false, piecewise: false, unbounded: false, fractional: false, strict_cmp: false, hostile: false };
+        let mut piece = |r: &mut Rng| {
+            let a = gen_model::num_exp(r, &ds, &affine, 1);
+            let b = gen_model::num_exp(r, &ds, &affine, 1);
+            match r.below(3) { 0 => Exp::Max(vec![a, b]), 1 => Exp::Min(vec![a, b]), _ => Exp::Abs(Box::new(a)) }
+        };
+        let k = *r.pick(&[-2.0, -1.0, -3.0, 2.0, -0.5]);
+        let scaled = Exp::BinOp(BinOp::Mul, Box::new(Exp::Number(k)), Box::new(piece(r)));
+        let mut cons = m.constraints().clone();
+        let mut obj = m.objective().rhs.clone();
+        if r.chance(2, 3) { cons.push(Constraint::new(scaled, gen_model::comparison(r), Exp::Number(gen_model::constant(r, false)), String::new())); }
+        else { obj = Exp::BinOp(BinOp::Add, Box::new(obj), Box::new(scaled)); }
+        gen_model::build(m.objective().objective_type.clone(), obj, cons, &ds)
+    };
     let cons: Vec<Constraint> = m.constraints().iter().map(|c| Constraint::new(respell(r, c.lhs()), c.constraint_type(), respell(r, c.rhs()), c.name().to_string())).collect();
     let m2 = gen_model::build(m.objective().objective_type.clone(), respell(r, &m.objective().rhs), cons, &ds);
     if sx::model(&m) == sx::model(&m2) { return None; }
@@ -89,7 +106,7 @@ fn respell_case(r: &mut Rng) -> Option<Case> {
             c.imp = "(both-compile)".into();
             c.tags.push(if sx::lin_model(la) == sx::lin_model(lb) { "respell-identical-output".into() } else { "respell-different-output".into() });
             // the respelled model's compiled output must denote the ORIGINAL model's feasible set
-            c.oracle = format!("py:c01 {} {}", sx::model(&m), sx::lin_model(lb));
+            c.oracle = format!("py:{} {} {}", if r.chance(1, 2) { "c01" } else { "c02" }, sx::model(&m), sx::lin_model(lb));
         }
         (Err(_), Err(_)) => { c.imp = "(both-rejected)".into(); c.tags.push("respell-both-rejected".into()); }
         (x, y) => {
